@@ -14,16 +14,24 @@ func (s *Sched) atomicPoint(addr unsafe.Pointer, kind int) {
 	t := s.running
 	s.yield(t, opSimple{"atomic"})
 	if s.addrSt == nil {
-		s.addrSt = map[unsafe.Pointer]*Stamp{}
+		s.addrSt = map[unsafe.Pointer]*addrState{}
 	}
 	st := s.addrSt[addr]
 	if st == nil {
-		st = &Stamp{}
+		// the identity of the location is that of its first access (task path + that task's own count of
+		// objects), so that it does not depend on the incidental global order in which unrelated locations
+		// were first touched -- otherwise equivalent interleavings would never hash to the same state
+		st = &addrState{id: t.newObjID()}
 		s.addrSt[addr] = st
 	}
-	t.tick(kLock, uint64(len(s.addrSt)), kind)
-	t.observe(st)
-	*st = t.st
+	t.tick(kLock, st.id, kind)
+	t.observe(&st.st)
+	st.st = t.st
+}
+
+type addrState struct {
+	id uint64
+	st Stamp
 }
 
 func atomicPoint(addr unsafe.Pointer, kind int) {
@@ -333,4 +341,18 @@ func (p *Pool) Put(x interface{}) {
 		atomicPoint(unsafe.Pointer(&p.k), 5)
 	}
 	p.items = append(p.items, x)
+}
+
+// Access is a tracked access to a piece of plain application memory (a message
+// object the harness owns): a scheduling point chained per address, so that the
+// two orders of conflicting accesses by different tasks are different states and
+// both get explored. Untracked plain memory is invisible to happens-before
+// caching: executions that differ only in the order of two unsynchronised
+// accesses count as the same state.
+func Access(addr unsafe.Pointer, write bool) {
+	k := 2
+	if write {
+		k = 3
+	}
+	atomicPoint(addr, k)
 }
